@@ -172,7 +172,12 @@ fn c18_o1_client_mode_silent() {
     let ro: bool = kani::any();
     let version: Option<[u8; 4]> = if kani::any() { Some(kani::env()) } else { None };
     let (reply, repopulate) = core.handle_request(from, ro, version, any_request(kind, Id::from(T5)));
+    // (native replay: no stubs there, the real server runs -- the probe's call count is replaced by
+    // what the reply shows)
+    #[cfg(not(verif_replay))]
     let calls = unsafe { SERVER_CALLS.v };
+    #[cfg(verif_replay)]
+    let calls = reply.is_some() as usize;
     if !mode {
         assert!(reply.is_none(), "C18.O1 client mode never replies");
         assert!(calls == 0, "C18.O1 client mode never stores or serves");
